@@ -117,7 +117,7 @@ Proof.
   - intros e s e' s' b Hr H.
     destruct (me e) as [m|]; [|discriminate].
     destruct (get_obj s oid) as [o|]; [|discriminate].
-    destruct o as [| |h sm p| | | | | | |]; try discriminate.
+    destruct o as [| |h sm p| | | | | | | | | | ]; try discriminate.
     destruct (sm_closed sm).
     + inversion H; subst. apply sframe_refl; exact Hr.
     + destruct h as [h'|].
@@ -160,7 +160,7 @@ Proof.
   intros e st oid w e' st' b Hr H. unfold rw_take in H.
   destruct (me e) as [m|]; [|discriminate].
   destruct (get_obj st oid) as [o|]; [|discriminate].
-  destruct o as [| | |wr rs sm p| | | | | |]; try discriminate.
+  destruct o as [| | |wr rs sm p| | | | | | | | | ]; try discriminate.
   destruct w.
   - destruct wr; [discriminate|]. destruct rs; [|discriminate].
     inversion H; subst. apply sframe_refl; exact Hr.
@@ -182,7 +182,7 @@ Proof.
   - intros e s e' s' b Hr H.
     destruct (me e) as [m|]; [|discriminate].
     destruct (get_obj s oid) as [o|]; [|discriminate].
-    destruct o as [| | |wr rs sm p| | | | | |]; try discriminate.
+    destruct o as [| | |wr rs sm p| | | | | | | | | ]; try discriminate.
     destruct (sm_closed sm).
     + inversion H; subst. apply sframe_refl; exact Hr.
     + match type of H with (if ?c then _ else _) = _ => destruct c end; [discriminate|].
@@ -201,7 +201,7 @@ Proof.
   - intros e s e' s' a Hr H.
     destruct (me e) as [m|]; [|discriminate].
     destruct (get_obj s oid) as [o|]; [|discriminate].
-    destruct o as [| | |wr rs sm p| | | | | |]; try discriminate.
+    destruct o as [| | |wr rs sm p| | | | | | | | | ]; try discriminate.
     assert (He : e' = e).
     { destruct w; destruct wr; destruct rs as [|r0 rs'];
         try (destruct (existsb (Nat.eqb m) (r0 :: rs')));
@@ -222,7 +222,7 @@ Proof.
   destruct (on_sem oid s (fun s0 => sem_release e s0 (rw_permits w))) as [[o [e1 s1]]|] eqn:E; [|discriminate].
   apply on_sem_inv in E. destruct E as [s0 E].
   pose proof (sem_release_sframe _ _ _ _ _ Hr E) as F1.
-  destruct o as [| | |wr rs sm p| | | | | |]; try discriminate.
+  destruct o as [| | |wr rs sm p| | | | | | | | | ]; try discriminate.
   destruct w.
   - destruct wr as [w'|]; [|discriminate].
     destruct (Nat.eqb w' m); [|discriminate].
